@@ -149,8 +149,26 @@ def init_walkers(ctx):
                 tested = accepted[0]
                 dets = [x for x in subterms(tested) if x.op == "call" and
                         (func_name(x) or "").endswith("linalg.det")]
+                def base(x):
+                    x = strip_wrappers(x)
+                    for _ in range(6):
+                        if x.op == "attr" and x.args[1] in ("T", "real"):
+                            x = strip_wrappers(x.args[0])
+                        elif x.op == "getitem" and x.args[1].op in ("tuple", "slice"):
+                            x = strip_wrappers(x.args[0])
+                        elif x.op == "call" and x.args[0].op == "attr" and x.args[0].args[1] == "conj":
+                            x = strip_wrappers(x.args[0].args[0])
+                        else:
+                            break
+                    return x
+
+                def operands(d):
+                    a = strip_wrappers(call_parts(d)[1][0])
+                    m2 = m_binop(a, "@")
+                    return [base(m2[0]), base(m2[1])] if m2 is not None else [base(a)]
+
                 uses = core is not None and bool(dets) and all(
-                    any(y is core for y in subterms(d)) for d in dets)
+                    any(y is core for y in operands(d)) for d in dets)
                 ctx.rep.ob("GUARD-1", f"{fi.qualname}: return #{k} returns the orbitals that were tested",
                            uses, "tested determinant is built from the returned orbitals" if uses else
                            "the acceptance test looks at other orbitals than the ones returned",
